@@ -18,7 +18,7 @@
 (*   mode, ub        the plan the planner must choose, whether the bucket   *)
 (*                   route is taken                                         *)
 (*                                                                          *)
-(* Environment: C08_MODE = "random" | "pairs", C08_N cases (random),        *)
+(* Environment: C08_MODE = "random" | "pairs" | "witness", C08_N cases,     *)
 (* C08_BASE first case id, C08_DEV_<name> set for every known deviation.    *)
 (* Randomness comes from TLC's RandomElement, i.e. from -seed.              *)
 (***************************************************************************)
@@ -46,9 +46,9 @@ GenSeq(n, Op(_)) ==
 
 -----------------------------------------------------------------------------
 (* value pools: 5 is the hub (int 5, uint 5, 5.0, 5.5, "5", time 5 s) *)
-ScalarPool == <<VInt(5), VInt(5), VInt(0), VInt(-1), VInt(1), VInt(2), VUint(5), VUint(5), VUint(0),
-                VFloat(50), VFloat(55), VFloat(55), VFloat(-5), VFloat(0), VBool(TRUE), VBool(FALSE),
-                VStr("5"), VStr("x"), VStr(""), VTime(5), VTime(5), VTime(0), VNil, VMissing>>
+ScalarPool == <<VInt(5), VInt(5), VInt(5), VInt(0), VInt(-1), VInt(1), VInt(2), VUint(5), VUint(5), VUint(5), VUint(0),
+                VFloat(50), VFloat(50), VFloat(55), VFloat(55), VFloat(-5), VFloat(0), VBool(TRUE), VBool(FALSE),
+                VStr("5"), VStr("5"), VStr("x"), VStr(""), VTime(5), VTime(5), VTime(0), VNil, VMissing>>
 ElemPool == SelectSeq(ScalarPool, LAMBDA v : v.k # "missing")
 RandElem(i) == Pick(ElemPool)
 RandMap(i) == IF Pct(25) THEN VMap(<<Named("x", Pick(ScalarPool)), Named("y", Pick(ScalarPool))>>)
@@ -61,9 +61,10 @@ RandField(i) ==
     [] r <= 16 -> VArr(GenSeq(Rnd(2), RandElemOrMap))
     [] OTHER   -> RandMap(0)
 
+BodyKinds == <<"int", "raw", "map", "map", "map", "map", "map", "map", "map", "map", "map", "map", "map", "map">>
 KeyNames == <<"a1", "a10", "a2", "b", "c">>      \* in string order: kr = position
 RandRank(pz) == IF Pct(pz) THEN 0 ELSE Rnd(3)
-RandDoc(kr) == [key |-> KeyNames[kr], kr |-> kr, bk |-> IF Pct(8) THEN "int" ELSE "map",
+RandDoc(kr) == [key |-> KeyNames[kr], kr |-> kr, bk |-> Pick(BodyKinds),
                 a |-> RandField(1), b |-> RandField(2), c |-> RandRank(20), u |-> RandRank(30), e |-> RandRank(40)]
 
 \* contents are sets of documents with distinct keys
@@ -91,9 +92,9 @@ PLEN  == <<Seg("", "len")>>
 PathPool == <<PA, PA, PA, PA, PB, PB, PB, PAX, PAX, PAW, PBW, PAWX, PALEN, PLEN>>
 AllPaths == {PA, PB, PAX, PAW, PBW, PAWX, PALEN, PLEN}
 
-NumCv == <<CInt(5), CInt(5), CInt(0), CInt(-1), CInt(2), CInt(1), CInt16(5), CUint(5), CUint(0), CFloat(50), CFloat(55),
-           CFloat(-5), CFloat32(55), CFloat32(50)>>
-EqCv == NumCv \o <<VStr("5"), VStr("x"), VStr(""), VBool(TRUE), VBool(FALSE)>>
+NumCv == <<CInt(5), CInt(5), CInt(5), CInt(0), CInt(-1), CInt(2), CInt(1), CInt16(5), CUint(5), CUint(5), CUint(0), CFloat(50),
+           CFloat(50), CFloat(55), CFloat(-5), CFloat32(55), CFloat32(50)>>
+EqCv == NumCv \o <<VStr("5"), VStr("5"), VStr("x"), VStr(""), VBool(TRUE), VBool(FALSE)>>
 StrIn == <<VStr("5"), VStr("x"), VStr("")>>
 IntInPool == <<VInt(5), VInt(0), VInt(-1), VInt(2)>>
 PickStr(i) == Pick(StrIn)
@@ -147,7 +148,7 @@ RandQuery(i) ==
 (* expectations *)
 EvalDevs == {"FloatTruncScan", "TimeFieldScan", "WildcardCmpKinds"}
 DevOrder == <<"PageAfterFilter", "WildcardLenPlanned", "IndexedLegLabelDropped", "TimeWindowOnKeyIndex",
-              "ZeroTimeOnTimeIndex", "FloatTruncScan", "TimeFieldScan", "WildcardCmpKinds">>
+              "ZeroTimeOnTimeIndex", "RawBodyIndexed", "FloatTruncScan", "TimeFieldScan", "WildcardCmpKinds">>
 \* drop one deviation after the other while the as-built answers stay explained
 RouteAnswers(route, C, q, D) == IF route = "scan" THEN ScanAnswers(C, q, D) ELSE BucketAnswers(C, q, D)
 RECURSIVE Shrink(_, _, _, _, _, _)
@@ -162,7 +163,7 @@ Expect(C, q) ==
       sb == ScanAnswers(C, q, Known)
       bb == BucketAnswers(C, q, Known)
   IN [strict |-> strict,
-      agree  |-> RoutesAgree(C, q),
+      agree  |-> BucketAnswers(C, q, {}) = strict,
       scan   |-> IF sb = strict THEN {} ELSE sb,
       sdev   |-> IF sb = strict THEN {} ELSE Shrink(Known, 1, sb, "scan", C, q),
       bucket |-> IF bb = strict THEN {} ELSE bb,
@@ -223,6 +224,32 @@ PairCase(id, v, l) ==
              <<PairQuery(Grp("AND", <<l>>, <<>>)), PairQuery(Grp("AND", <<anchor, l>>, <<>>)),
                PairQuery(Grp("OR", <<anchor, l>>, <<>>))>>)
 
+-----------------------------------------------------------------------------
+(* "witness": one minimal case per named deviation (the witnesses recorded in findings/C08.json) *)
+WDoc(key, kr, bk, a, b, c) == [key |-> key, kr |-> kr, bk |-> bk, a |-> a, b |-> b, c |-> c, u |-> c, e |-> 0]
+WQ(f, idx, from, limit, ft) == Qry(f, idx, FALSE, from, limit, 0, ft, 0, {})
+One(l) == Grp("AND", <<l>>, <<>>)
+AEq5 == Leg(PA, "EQ", CInt(5), <<>>, "")
+Witnesses == <<
+  [dev |-> "FloatTruncScan", docs |-> <<WDoc("a1", 1, "map", VFloat(55), VNil, 1)>>, q |-> WQ(One(AEq5), "key", 0, 0, 0)],
+  [dev |-> "TimeFieldScan", docs |-> <<WDoc("a1", 1, "map", VTime(5), VNil, 1)>>,
+   q |-> WQ(One(Leg(PA, "EQ", CUint(5), <<>>, "")), "key", 0, 0, 0)],
+  [dev |-> "WildcardCmpKinds", docs |-> <<WDoc("a1", 1, "map", VArr(<<VUint(5)>>), VNil, 1)>>,
+   q |-> WQ(Grp("OR", <<>>, <<One(Leg(PAW, "EQ", CUint(5), <<>>, ""))>>), "key", 0, 0, 0)],
+  [dev |-> "PageAfterFilter",
+   docs |-> <<WDoc("a1", 1, "map", VInt(0), VNil, 1), WDoc("a2", 3, "map", VInt(5), VNil, 1), WDoc("b", 4, "map", VInt(5), VNil, 1)>>,
+   q |-> WQ(One(AEq5), "key", 1, 1, 0)],
+  [dev |-> "WildcardLenPlanned", docs |-> <<WDoc("a1", 1, "map", VArr(<<VInt(5), VStr("x")>>), VNil, 1)>>,
+   q |-> WQ(One(Leg(PAW, "EQ", CInt(5), <<>>, "")), "key", 0, 0, 0)],
+  [dev |-> "WildcardLenPlanned", docs |-> <<WDoc("a1", 1, "map", VArr(<<VInt(5), VStr("x")>>), VNil, 1)>>,
+   q |-> WQ(One(Leg(PALEN, "EQ", CInt(2), <<>>, "")), "key", 0, 0, 0)],
+  [dev |-> "IndexedLegLabelDropped", docs |-> <<WDoc("a1", 1, "map", VInt(5), VNil, 1)>>,
+   q |-> WQ(One(Leg(PA, "EQ", CInt(5), <<>>, "L1")), "key", 0, 0, 0)],
+  [dev |-> "TimeWindowOnKeyIndex", docs |-> <<WDoc("a1", 1, "map", VInt(5), VNil, 2)>>, q |-> WQ(One(AEq5), "key", 0, 0, 1)],
+  [dev |-> "ZeroTimeOnTimeIndex", docs |-> <<WDoc("a1", 1, "map", VInt(5), VNil, 0)>>, q |-> WQ(One(AEq5), "ctime", 0, 0, 0)],
+  [dev |-> "RawBodyIndexed", docs |-> <<WDoc("a1", 1, "raw", VInt(5), VNil, 1)>>, q |-> WQ(One(AEq5), "key", 0, 0, 0)]>>
+WitnessCase(i) == CaseRec(i, Witnesses[i].dev, Witnesses[i].docs, <<>>, <<>>, <<Witnesses[i].q>>)
+
 Base == EnvInt("C08_BASE", 0)
 \* pairs are sharded by value: shard C08_SHARD of C08_SHARDS
 PairShard ==
@@ -231,5 +258,6 @@ PairShard ==
 
 ASSUME Mode = "random" => \A i \in 1..EnvInt("C08_N", 10) : PrintT(ToJson(RandCase(Base + i)))
 ASSUME Mode = "pairs" => \A v \in PairShard : \A l \in PairLegs : PrintT(ToJson(PairCase(0, v, l)))
+ASSUME Mode = "witness" => \A i \in DOMAIN Witnesses : PrintT(ToJson(WitnessCase(i)))
 ASSUME Mode = "count" => PrintT(<<"pairs", Cardinality(PairVals), Cardinality(PairLegs)>>)
 =============================================================================
